@@ -124,7 +124,8 @@ def np_float_to_bytes(numpy_float):
 
 
 def np_float_to_bytes_signed(numpy_float):
-    return struct.pack("<i", int(numpy_float.astype(int)))
+    # Round to nearest: 1000.0 * (samples[1] - samples[0]) is e.g. 1000.9999999999999 for a 1001 us interval
+    return struct.pack("<i", int(np.rint(numpy_float)))
 
 
 def bytes_to_int(bytes):
